@@ -437,6 +437,10 @@ class ActionPrebuilder(xtuml.tools.Walker):
     
     def find_symbol(self, node, name):
         # TODO: introduce a new keyword SENDER, and SenderAccessNode?
+        if name.lower() == 'self':
+            # the keyword may be written in any letter case
+            name = 'self'
+            
         v_var = self.symtab.find_symbol(name)
         if not v_var and name.lower() == 'sender':
             v_trn = self.v_trn(node, 'sender')
